@@ -370,13 +370,28 @@ def heights_and_branches(d, topology, n, tree_kind, params):
     return args, children, root
 
 
+def touch_intermediates(like):
+    """What another consumer of the same objects (a tree prior, a logger, a second likelihood) reads between a parameter
+    update and the likelihood evaluation: every public accessor of an intermediate value.  Accessors clear dirty flags,
+    so a cache keyed on a flag that another accessor consumes goes stale exactly here."""
+    tm_ = like.tree_model
+    if hasattr(tm_, 'node_heights'):
+        _ = tm_.node_heights
+    _ = like.site_model.rates()
+    _ = like.site_model.probabilities()
+    if getattr(like, 'clock_model', None) is not None:
+        _ = like.clock_model.rates
+    _ = like.subst_model.frequencies
+
+
 def k2_task(task, tr):
     from torchtree.evolution.tree_likelihood import TreeLikelihoodModel
 
     topology, n, tree_kind, site_kind, tip_states = task[:5]
     second_round = len(task) > 5 and task[5]
     label = (f'K2 topology={cm.to_newick(topology)} tree={tree_kind} site={site_kind} tip_states={tip_states}'
-             + (' [after updating every parameter]' if second_round else ''))
+             + (' [after updating every parameter]' if second_round else '')
+             + (' [intermediate values read by another consumer before the likelihood]' if second_round == 'reads' else ''))
     tr.fn(TreeLikelihoodModel._call, TreeLikelihoodModel.calculate_with_tip_partials,
           TreeLikelihoodModel.calculate_with_tip_states)
     tr.bounds['K2'] = ('n in {3,4}; {unrooted, time tree + strict clock, time tree + per-branch clock} x '
@@ -417,6 +432,8 @@ def k2_task(task, tr):
                 if key in dic:
                     cm.symbolize(dic[key], key + '2_', dic[key].tensor._v * 0.9)
             fr = cm.symbolize(dic['freqs'], 'pi2_', dic['freqs'].tensor._v)
+            if second_round == 'reads':
+                touch_intermediates(like)
         impl = like()
         tr.witness_runs += 1
         tr.ops_checked += t.nchecked
@@ -520,6 +537,8 @@ def k2_replay(topology, n, tree_kind, site_kind, tip_states, vals, second_round=
     for key, prefix in [('tree.blens', 'b'), ('tree.heights', 'h'), ('rate', 'rate'), ('shape', 'shape'),
                         ('pinv', 'pinv'), ('mu', 'mu')]:
         setp(key, prefix)
+    if second_round == 'reads':
+        touch_intermediates(like)
     for key in ('kappa', 'freqs'):
         dic[key].tensor = dic[key].tensor.to(torch.float64)
     try:
@@ -605,6 +624,9 @@ def tasks_for(tier):
         ts.append(('K2', cm.caterpillar(3), 3, 'strict', 'weibull', False, True))
         ts.append(('K2', cm.caterpillar(3), 3, 'simple', 'invariant', True, True))
         ts.append(('K2', cm.caterpillar(3), 3, 'unrooted', 'weibull+inv', False, True))
+        ts.append(('K2', cm.caterpillar(3), 3, 'strict', 'weibull', False, 'reads'))
+        ts.append(('K2', ((0, 1), 2), 3, 'simple', 'weibull+inv', False, 'reads'))
+        ts.append(('K2', cm.caterpillar(3), 3, 'unrooted', 'invariant', True, 'reads'))
     else:
         for n in (3, 4, 5):
             for topo in cm.rooted_topologies(n):
@@ -630,6 +652,7 @@ def tasks_for(tier):
                             ts.append(('K2', topo, n, tree_kind, site_kind, tipst))
                             if n == 3 and not tipst:
                                 ts.append(('K2', topo, n, tree_kind, site_kind, tipst, True))
+                                ts.append(('K2', topo, n, tree_kind, site_kind, tipst, 'reads'))
     return ts
 
 
